@@ -5,7 +5,7 @@
 //! the case description write enter/exit marks, the harness shell writes one mark per HTTP effect it
 //! answers, all into one log.  One JSON line per case: the case, the oracle tables (Url::parse, Url::join
 //! computed with the url crate itself) and the implementation's log and final event.
-//!   httpresp_c16 <seed> <count>
+//!   httpresp_c16 <seed> <count> [inputs.jsonl]
 #[path = "httpresp_util/mod.rs"]
 mod util;
 
@@ -398,7 +398,7 @@ fn case_json(c: &Case) -> Value {
     let mut hs = c.headers.clone();
     if c.body.is_some() && !hs.iter().any(|(n, _)| n == "content-type") { hs.push(("content-type".into(), "application/octet-stream".into())); }
     hs.sort();
-    json!({"api": c.api,
+    json!({"api": c.api, "desc_headers": c.headers.iter().map(|(n, v)| json!([hex(n.as_bytes()), hex(v.as_bytes())])).collect::<Vec<_>>(), "has_body": c.body.is_some(),
         "client_stack": c.client_stack.iter().map(|m| m.to_json()).collect::<Vec<_>>(),
         "req_stack": c.req_stack.iter().map(|m| m.to_json()).collect::<Vec<_>>(),
         "request": {"method": hex(c.method.as_bytes()), "url": hex(c.url.as_bytes()),
@@ -406,6 +406,36 @@ fn case_json(c: &Case) -> Value {
                     "body": hex(c.body.as_deref().unwrap_or(&[]))},
         "graph": c.graph.iter().map(|(u, r)| json!([hex(u.as_bytes()), r.to_json()])).collect::<Vec<_>>(),
         "default": c.default.as_ref().unwrap().to_json()})
+}
+
+fn res_from_json(v: &Value) -> Res {
+    if v["t"] == "ok" { let (status, headers, body) = response_parts(v); Res::Ok { status, headers, body } } else { Res::Err(error_from_json(v)) }
+}
+fn mw_from_json(v: &Value) -> Mw {
+    let side = |l: &Value| -> Vec<(String, Option<u8>)> { l.as_array().unwrap().iter().map(|s| (unhex_str(&s[0]), s[1].as_u64().map(|a| a as u8))).collect() };
+    let id = v["id"].as_u64().unwrap_or(0);
+    match v["t"].as_str().unwrap() {
+        "pass" => Mw::Pass { id, add: if v["add"].is_null() { None } else { Some((unhex_str(&v["add"][0]), unhex_str(&v["add"][1]))) } },
+        "short" => Mw::Short { id, result: res_from_json(&v["result"]) },
+        "issue" => Mw::Issue { id, pre: side(&v["pre"]), post: side(&v["post"]) },
+        "retry" => Mw::Retry { id, n: v["n"].as_u64().unwrap() },
+        _ => Mw::Redirect { attempts: v["attempts"].as_u64().unwrap() as u8 },
+    }
+}
+/// the inverse of case_json (corpus, shrinking candidates)
+fn case_from_json(v: &Value) -> Case {
+    let stack = |l: &Value| -> Vec<Mw> { l.as_array().unwrap().iter().map(mw_from_json).collect() };
+    Case {
+        api: v["api"].as_u64().unwrap() as u8,
+        client_stack: stack(&v["client_stack"]),
+        req_stack: stack(&v["req_stack"]),
+        method: unhex_str(&v["request"]["method"]),
+        url: unhex_str(&v["request"]["url"]),
+        headers: v["desc_headers"].as_array().unwrap().iter().map(|h| (unhex_str(&h[0]), unhex_str(&h[1]))).collect(),
+        body: if v["has_body"].as_bool().unwrap_or(false) { Some(unhex(v["request"]["body"].as_str().unwrap_or(""))) } else { None },
+        graph: v["graph"].as_array().unwrap().iter().map(|g| (unhex_str(&g[0]), res_from_json(&g[1]))).collect(),
+        default: Some(res_from_json(&v["default"])),
+    }
 }
 
 fn oracles(c: &Case) -> Value {
@@ -452,6 +482,16 @@ fn main() {
                         ("http://example.com/x/z/q".into(), ok(200, vec![], b"right")),
                         ("http://example.com/x/q".into(), ok(200, vec![], b"wrong"))],
             default: Some(ok(404, vec![], b"default")) });
+    }
+    if let Some(path) = args.get(3) {
+        for line in std::fs::read_to_string(path).unwrap_or_default().lines() {
+            let Ok(v) = serde_json::from_str::<Value>(line) else { continue };
+            let c = case_from_json(&v["case"]);
+            let cj = case_json(&c);
+            let oj = oracles(&c);
+            let o = run(Arc::new(c));
+            println!("{}", json!({"k": "case", "corpus": true, "name": v["name"], "case": cj, "oracle": oj, "impl": o, "malformed": false}));
+        }
     }
     let mut n = 0;
     let mut i = 0;
